@@ -51,6 +51,9 @@ CHECKS = {
  "C15": ("exploration", "hand-over scenarios (fail-over and Badger restart) driven through the real lock, monitor comparing the new leader's revisions with an engine dump and the reference state", "5 C15",
    "Held on generated old-leader histories with bursts of failed writes and lock renewals followed by a fail-over (all engines) or a close+reopen (Badger): the new leader's start and first revisions exceed every stored revision, guarded writes on existing keys succeed, earlier writes are listed.",
    "election is driven in-process in client-go's call order and leader.go's on-elected action is applied by the harness"),
+ "C16": ("exploration", "differential run of generated etcd request histories against an etcd-semantics reference model at the real etcd.RPCServer handlers, incl. a generated family of unsupported transactions with a state-unchanged monitor", "5 C16",
+   "Held (apart from the recorded Count finding) on generated histories of the four Kubernetes transaction shapes with correct/stale/zero expectations, point/range/limited/old-revision reads, count-only, a prefix watch with prev_kv, and 16 kinds of unsupported transactions which must be rejected and leave the store unchanged.",
+   "handlers are called directly (no gRPC transport in the quick tier); EnableEtcdCompatibility on"),
 }
 def cmd(p, tier): return "./bin/kbcheck %s --tier %s" % (p, tier)
 hooks = subprocess.run(["git","-C","/repo","log","--format=%H %s"],capture_output=True,text=True).stdout.splitlines()
